@@ -57,7 +57,9 @@ package mqttproxy
 // not generated:
 //   * a SUBSCRIBE/UNSUBSCRIBE whose acknowledgement was not read while its
 //     connection was still the current one (connection ended, a newer CONNECT
-//     had been sent, or the final probes had been published): its filters are
+//     had been sent, or the final checks - white-box and probes - had begun;
+//     no_wait steps may be half applied then: trie changed, session not yet):
+//     its filters are
 //     "ambiguous" for the rest of the run and are neither required nor
 //     forbidden to deliver. A superseded connection issues no further steps.
 //   * after an injected storage error (get/put/delete) every filter ever used
@@ -91,15 +93,19 @@ package mqttproxy
 //   C16.takeover.session-entry-removed, .subscription-removed, .delivery-lost,
 //     .stored-session-deleted, .successor-killed   superseded connection's
 //     teardown wiped the successor's sessionMap entry / trie entries / stored
-//     session / registration (via the delete-watch)
+//     session / registration (via the delete-watch). successor-killed is used
+//     only when the connection that called delDB no longer owned the id (the
+//     store asks the harness at the moment of the delete: the *Client on the
+//     caller's stack vs. b.clients[id])
 //   C16.discarded-session-still-delivers   trie entries of a session that had
 //     to be discarded (clean=1 takeover, or predecessor was clean) still route
 //   C16.stuck.session-locked-by-full-queue, .handler-never-returns, .session-locked
 //     publish/resend blocked on a full write queue while holding the session mutex
 //   C16.panic.session-closed-twice (and the driver's C16.process-crash)
 //     close(s.done) twice: setSession's prevSess.close() racing delLocal
-//   C16.reconnect.killed-by-own-delete-event   the delete-watch echo of the
-//     broker's own delDB disconnects the id's next connection
+//   C16.reconnect.killed-by-own-delete-event   the delete-watch echo of a
+//     legitimate delDB (by the owner of the id, end of a clean session)
+//     disconnects the id's next connection, reconnect or takeover alike
 //   C16.takeover.old-connection-overwrote-session   a packet of the superseded
 //     connection processed after the takeover stored its old session over the new
 //   C16.stored-session-stale   Session.store snapshots reached the storage in
@@ -447,6 +453,9 @@ type c16Store struct {
 	admin   bool     // the harness's admin delete is in progress
 	delErrs int
 	quiet   bool // the run is being wound down
+	// deleter tells (at the moment delete is called) whether the connection that
+	// deletes the contested key still owns the id: "owner" or "superseded"
+	deleter func() string
 }
 
 var _ storage = (*c16Store)(nil)
@@ -533,6 +542,10 @@ func (s *c16Store) put(key, value string) error {
 }
 
 func (s *c16Store) delete(key string) error {
+	deleter := ""
+	if s.deleter != nil && !s.admin && !s.quiet && key == sessionStoreKey(c16ID) {
+		deleter = s.deleter()
+	}
 	s.nDel++
 	n := s.nDel
 	s.lat(s.f.DelDelayUs, n, "store.delete")
@@ -548,6 +561,8 @@ func (s *c16Store) delete(key string) error {
 		who := "broker"
 		if s.admin {
 			who = "admin"
+		} else if s.deleter != nil {
+			who = "broker(" + deleter + ")"
 		}
 		if !s.quiet {
 			s.delLog = append(s.delLog, fmt.Sprintf("%s@%v(existed=%v)", who, s.r.Now(), existed))
@@ -1502,13 +1517,41 @@ func (h *c16H) invariant() string {
 // disconnected" when the store saw the broker itself delete the id's key (the
 // delete-watch then treats it like an admin deletion).
 func (h *c16H) killClass(def string) string {
-	if h.brokerDeleted() {
-		if h.takeoverTeardown() {
+	// deleted by a connection that no longer owned the id (a newer one was
+	// registered): the teardown of a superseded connection reached delDB
+	for _, d := range h.st.delLog {
+		if strings.HasPrefix(d, "broker(superseded)") && strings.Contains(d, "existed=true") {
 			return "C16.takeover.successor-killed"
 		}
+	}
+	// a legitimate deletion by the owner of the id (end of a clean session)
+	// whose delete-watch event arrives after the id's next connection registered
+	if h.brokerDeleted() {
 		return "C16.reconnect.killed-by-own-delete-event"
 	}
 	return def
+}
+
+// deleterRole runs inside c16Store.delete, i.e. on the goroutine that called
+// SessionManager.delDB: the *Client whose closeAndDelSession is on the stack is
+// compared with the client registered for the id at this moment.
+func (h *c16H) deleterRole() string {
+	buf := make([]byte, 8192)
+	st := string(buf[:runtime.Stack(buf, false)])
+	i := strings.Index(st, "(*Client).closeAndDelSession(")
+	if i < 0 {
+		return "unknown"
+	}
+	arg := st[i+len("(*Client).closeAndDelSession("):]
+	if j := strings.IndexAny(arg, ",)"); j >= 0 {
+		arg = arg[:j]
+	}
+	arg = strings.TrimSuffix(strings.TrimSpace(arg), "?")
+	cur := h.b.clients[c16ID]
+	if cur == nil || fmt.Sprintf("%p", cur) == arg {
+		return "owner"
+	}
+	return "superseded"
 }
 
 // storedHistory classifies a mismatch between the session restored from the
@@ -1702,6 +1745,21 @@ func (h *c16H) final() {
 		return ""
 	}
 	m := &h.model
+	// an operation of the survivor that is still unacknowledged (no_wait steps)
+	// may be half applied (trie already changed, session not yet, or not at
+	// all): its filters are ambiguous for the white-box checks as well as for
+	// the probes
+	inflightAmb := func() {
+		for _, op := range S.inflight {
+			for _, f := range op.filters {
+				if !m.amb[f] {
+					m.amb[f] = true
+					r.Probe("c16.operation_in_flight_at_final_check")
+				}
+			}
+		}
+	}
+	inflightAmb()
 	// F0 black box: not closed by the server
 	if S.closedByServer {
 		r.Violate(h.killClass("C16.survivor-disconnected"), "the surviving connection was closed by the server (%s). %s\n%s", S.closeErr, ctx(), h.history())
@@ -1804,12 +1862,7 @@ func (h *c16H) final() {
 	}
 	// expectations are fixed now: an operation acknowledged only after the probe
 	// publishes may or may not apply to them
-	for _, op := range S.inflight {
-		for _, f := range op.filters {
-			m.amb[f] = true
-			r.Probe("c16.operation_in_flight_at_probe")
-		}
-	}
+	inflightAmb()
 	type c16Exp struct {
 		must, may bool
 		why       string
@@ -2016,6 +2069,7 @@ func c16Exec(r *sim.Run, sci interface{}) {
 		return
 	}
 	h.st = &c16Store{r: r, f: sc.Store, data: map[string]string{}, ch: make(chan map[string]*string, 256), getHit: map[string]int{}, getMark: map[string]int{}, getCnt: map[string]int{}}
+	h.st.deleter = h.deleterRole
 	spec := &Spec{Name: "c16", EGName: "eg", Port: 1884}
 	h.b = newBroker(spec, h.st, nil, func(string, string) ([]string, error) { return nil, nil })
 	if h.b == nil {
